@@ -9,7 +9,8 @@ from harness.props import c03 as base
 PROP = "C05"
 COQ = dict(imports=["Model.Heads", "Model.Stamp", "Spec.C05"], in_ty="c05_in", out_ty="c05_out",
            corr="corr_C05", decide="check_C05", model="model_C05")
-THEOREMS = ["C05_decider_sound", "C05_single_target", "C05_base", "C05_purge", "C05_multi_refuted", "C05_multi_partial"]
+THEOREMS = ["C05_decider_sound", "C05_single_target", "C05_base", "C05_purge", "C05_multi_refuted", "C05_multi_partial",
+            "C05_multi_partial_class"]
 TRUSTED = [
     "SQLite + SQLAlchemy execute the three bookkeeping statements as the list model says; matched-row counts are observed",
     "the revision graph is given to the model already loaded; `heads` is given as the observed order of RevisionMap._real_heads "
@@ -24,8 +25,8 @@ ASSUME = [
     "(known finding C05-multi-target-stamp, C05_multi_refuted)",
 ]
 RULE = ("quick: EVERY history of <=4 revisions (topological load order, each earlier revision absent / down_revision / depends_on "
-        "of each later one) x EVERY antichain state H x targets {each id, base, heads, every unordered pair of ids}, without "
-        "--purge; with --purge for every history, every target and the largest state; seeded random histories of 5-10 revisions "
+        "of each later one) x EVERY antichain state H x targets {each id, base, heads, every unordered pair of ids (pairs on 4 revisions: every second history in quick, "
+        "all in thorough)}, without --purge; with --purge for every history, every target and the largest state; seeded random histories of 5-10 revisions "
         "x random antichain states x random targets (single, pairs, triples, heads, base) x purge. thorough adds ordered pairs, "
         "triples on <=4 revisions, the reversed load order and 10x the random cases. Compared exactly: the StampSteps returned by "
         "_stamp_revs (from_, to_, is_upgrade, branch_move), after every step the rows (multiset) and every statement with its "
@@ -44,14 +45,16 @@ def targets(n, ordered=False, triples=False):
     return out
 
 
-def exhaustive(n, ordered=False, triples=False, rev_order=False):
-    for down, deps in base.topo_graphs(n):
+def exhaustive(n, ordered=False, triples=False, rev_order=False, half_multi=False):
+    """half_multi: several-id targets only for every second history (the single/base/heads targets stay exhaustive)"""
+    for k, (down, deps) in enumerate(base.topo_graphs(n)):
         g = base._g(n, down, deps, list(range(n))[::-1] if rev_order else None)
         acs = list(base.antichains(n, down, deps))
+        tg = [t for t in targets(n, ordered, triples) if len(t) == 1 or not half_multi or k % 2 == 0]
         for H in acs:
-            for t in targets(n, ordered, triples):
+            for t in tg:
                 yield {"g": g, "rows": H, "target": t, "purge": False, "kind": "exh-n%d" % n}
-        for t in targets(n, ordered, triples):
+        for t in tg:
             yield {"g": g, "rows": max(acs, key=len), "target": t, "purge": True, "kind": "exh-purge-n%d" % n}
 
 
@@ -86,8 +89,9 @@ def generate(tier, seed):
     yield {"g": [{"id": 0, "down": [], "deps": []}, {"id": 1, "down": [0], "deps": []}, {"id": 2, "down": [0], "deps": []},
                  {"id": 3, "down": [2], "deps": []}, {"id": 4, "down": [], "deps": [0]}],
            "rows": [2, 4], "target": ["heads"], "purge": False, "kind": "witness"}
-    for n in (1, 2, 3, 4):
+    for n in (1, 2, 3):
         yield from exhaustive(n)
+    yield from exhaustive(4, half_multi=(tier == "quick"))
     yield from random_cases(rnd, 1500 if tier == "quick" else 15000)
     if tier == "thorough":
         for n in (2, 3, 4):
@@ -115,11 +119,15 @@ def run_case(h):
     s, m, enc = base.build(h["g"])
     eng, conn, opts, qual = base.open_db(None)
     try:
-        log = []
+        log, harness_fail = [], []
 
         @event.listens_for(conn, "after_cursor_execute")
         def ace(c, cursor, statement, parameters, context, executemany):
-            p = base.parse_stmt(statement, cursor.rowcount)
+            try:
+                p = base.parse_stmt(statement, cursor.rowcount)
+            except RuntimeError as e:          # a harness problem: must not be mistaken for an alembic exception
+                harness_fail.append(str(e))
+                raise
             if p:
                 log.append(p)
 
@@ -152,6 +160,9 @@ def run_case(h):
     finally:
         conn.close()
         eng.dispose()
+
+    if harness_fail:
+        raise RuntimeError(harness_fail[0])
 
     def stmt(p):
         if p[0] == "ins":
